@@ -308,7 +308,11 @@ func (c16) RunCase(c *fw.Ctx, rng *fw.RNG, batch, i int) {
 		}
 		return
 	}
-	g := graphgen.Gen(rng, graphgen.Opts{MaxBlocks: 6, MaxDepth: 3, MaxWidth: 4, NumLookalikes: true})
+	gopts := graphgen.Opts{MaxBlocks: 6, MaxDepth: 3, MaxWidth: 4, NumLookalikes: true}
+	if deepCase(c, i) {
+		gopts.MaxBlocks, gopts.MaxDepth, gopts.MaxWidth = 12, 4, 6
+	}
+	g := graphgen.Gen(rng, gopts)
 	st := c16Store{}
 	for l, v := range g.Vals {
 		st[l] = v
